@@ -110,7 +110,14 @@ pub struct CaseOut {
 pub fn run_isolated(kind: &str, tier: &str, total: usize, workers: usize, extra: &[String]) -> Vec<CaseOut> {
     let exe = std::env::current_exe().expect("current exe");
     let chunk = (total + workers - 1) / workers.max(1);
-    let ranges: Vec<(usize, usize)> = (0..workers).map(|w| (w * chunk, ((w + 1) * chunk).min(total))).filter(|(a, b)| a < b).collect();
+    let mut ranges: Vec<(usize, usize)> = (0..workers).map(|w| (w * chunk, ((w + 1) * chunk).min(total))).filter(|(a, b)| a < b).collect();
+    let mut extra: Vec<String> = extra.to_vec();
+    if let Some(p) = extra.iter().position(|a| a == "--only") {
+        let idx: usize = extra[p + 1].parse().unwrap();
+        ranges = vec![(idx, idx + 1)];
+        extra.truncate(p);
+    }
+    let extra = &extra[..];
     let results: Vec<Vec<CaseOut>> = crate::explore::par_map(&ranges, workers, |&(start, end)| {
         let mut out = vec![];
         let mut next = start;
@@ -186,4 +193,10 @@ pub fn emit_res(idx: usize, verdict: &str, detail: &str) {
 }
 pub fn emit_done() {
     println!("DONE");
+}
+
+/// re-evaluate one case alone in a fresh worker process (used to confirm a verdict before reporting it)
+pub fn rerun_case(kind: &str, tier: &str, idx: usize) -> CaseOut {
+    let r = run_isolated(kind, tier, idx + 1, 1, &["--only".to_string(), idx.to_string()]);
+    r.into_iter().find(|c| c.idx == idx).unwrap_or(CaseOut { idx, verdict: "MACHINERY".into(), detail: "rerun produced no result".into() })
 }
